@@ -640,6 +640,40 @@ func runCheck(id string) int {
 	for _, r := range results {
 		vios = append(vios, r.violations...)
 	}
+	if def.differential {
+		// "backend-concurrency" deviations are a matter of this (differential) check only when they
+		// are backend-specific: seen on some build of a workload and never on another build of it.
+		seenOn := map[string]map[string]bool{}
+		variantsOf := map[string]map[string]bool{}
+		for _, r := range results {
+			if variantsOf[r.item.workload] == nil {
+				variantsOf[r.item.workload] = map[string]bool{}
+				seenOn[r.item.workload] = map[string]bool{}
+			}
+			variantsOf[r.item.workload][r.item.variant] = true
+			for _, v := range r.violations {
+				if v.Class == "backend-concurrency" {
+					seenOn[r.item.workload][r.item.variant] = true
+				}
+			}
+		}
+		shared := false
+		for w := range seenOn {
+			if len(seenOn[w]) > 0 && len(seenOn[w]) == len(variantsOf[w]) {
+				shared = true
+			}
+		}
+		if shared {
+			fmt.Println("  (concurrent deviations occur on every build: a defect in shared code, not a backend difference; not reported under this property)")
+			var kept []found
+			for _, v := range vios {
+				if v.Class != "backend-concurrency" {
+					kept = append(kept, v)
+				}
+			}
+			vios = kept
+		}
+	}
 	// de-duplicate by id, keep lowest run index
 	sort.SliceStable(vios, func(i, j int) bool {
 		if vios[i].ID() != vios[j].ID() {
